@@ -153,7 +153,7 @@ def rl_cases(draw):
     # losses: the real loss, or a script that can hit special values (an exact 0.0 = perfect fit, ties, increases)
     losses = draw(st.one_of(st.none(), st.lists(st.sampled_from([0.0, 0.0, 1.0, 0.5, 2.0, 0.25]), min_size=2, max_size=8)))
     return {"cfg": cfg, "agent": agent, "script": script, "sessions": draw(st.lists(st.integers(1, 4), min_size=1, max_size=3)),
-            "losses": losses}
+            "losses": losses, "slow_policy_call": draw(st.sampled_from([None] * 30 + [1, 2, 3]))}
 
 
 def check_rl(ctx: Ctx, case):
@@ -176,6 +176,9 @@ def check_rl(ctx: Ctx, case):
             self.k = 0
 
         def policy(self, state):
+            if case.get("slow_policy_call") == self.k:
+                import time
+                time.sleep(1.3)   # a slow decision: the session may be over before it is made
             a = case["script"][self.k % len(case["script"])] % n_act
             self.k += 1
             chosen.append(a)
